@@ -255,3 +255,11 @@ func runLim(t *testing.T, ci interface{}, trace bool) *common.Outcome {
 }
 
 var _ = simrt.Mix
+
+// LimProp is the C15 check of this world (the e2e world combines it with its end-to-end part).
+func LimProp() *common.Prop {
+	return &common.Prop{ID: "C15", New: func() interface{} { return &LimCase{} },
+		Gen:    func(r *simrt.Rand, tier string, idx int) interface{} { return genLimCase(r, tier) },
+		Run:    runLim,
+		Shrink: shrinkLim}
+}
